@@ -19,7 +19,7 @@ INFO = {
         'thorough': '+ rank clauses n = 5; sum clause (1,1,1,1,1),(3,1,2),(2,2,2,2)',
     },
     'outside': ['IEEE rounding', 'rank clauses beyond 5 teams, sum clause beyond 5 teams'],
-    'stubs': ['rank harness: common._normal.cdf returns a fresh unconstrained value in (0,1) per call (superset of Phi)',
+    'stubs': ['rank harness: the CDF primitive under phi_major (common._normal.cdf, math.erf/erfc) returns a fresh unconstrained value in (0,1) per call (superset of Phi)',
               'sum harness: _rank_data (module global of the model file) replaced by a constant ranking'],
     'axioms': ['T0/T1 for Phi incl. Phi(a)+Phi(b) < 1 <=> a+b < 0 (sum harness)'],
     'assumptions': ['real-number semantics (mode R)'],
@@ -104,8 +104,22 @@ def run_rank(spec, ctx):
             e[vnames[k]] = min(0.49, max(0.01, 0.25 + (lv[a] - lv[b]) / 2))
         return e
 
+    class FreeMath(core.SymMath):
+        """erf/erfc stand-ins so that whatever libm entry point phi_major is built on returns the same free value"""
+
+        def __init__(self, fn):
+            self.fn = fn
+
+        def erfc(self, z):
+            return 2 * self.fn.cdf(None)
+
+        def erf(self, z):
+            return 2 * self.fn.cdf(None) - 1
+
     def run():
         C._normal = FreeNormal()
+        if hasattr(C, 'math'):
+            C.math = FreeMath(C._normal)
         m = Model()
         teams = [[m.rating(25.0 + i, 8.0) for _ in range(k)] for i, k in enumerate(shape)]
         return [tuple(x) for x in m.predict_rank(teams)]
